@@ -13,7 +13,8 @@ FILES = ['theories/Base.v', 'theories/gen/Codec.v', 'theories/gen/Tp21Gen.v', 't
 def gen(rng, k, dll=None):
     dll = dll or rng.choice(['j1939-21', 'j1939-22'])
     fd = dll != 'j1939-21'
-    a0, a1, a2 = 0x10, 0x20, 0x30
+    # (address 0 is an address like any other: it takes its turn on every side)
+    a0, a1, a2 = rng.choice([(0x10, 0x20, 0x30), (0x10, 0x20, 0x30), (0x10, 0x00, 0x30), (0x00, 0x20, 0x30), (0xF9, 0x20, 0x00)])
     stacks = [dict(dll=dll, max_cmdt=rng.choice([1, 2, 8, 255]), subs=[dict(cid=1, filt=a0)], cas=[]),
               dict(dll=dll, max_cmdt=rng.choice([1, 3, 255]), subs=[dict(cid=2, filt=a1)], cas=[]),
               dict(dll=dll, max_cmdt=2, subs=[dict(cid=3, filt=a2)], cas=[])]
@@ -73,8 +74,9 @@ def gen(rng, k, dll=None):
     # afterwards: the full advertised concurrency from stack 0
     final = []
     if fd:
+        zero = 0 if 0 in (a1, a2) and rng.random() < 0.7 else None       # (all eight to the node at address 0)
         for i in range(8):
-            final.append([0, 0xC0 + i, rng.choice([a1, a2]), 6, a0, dict(seed=rng.getrandbits(30), len=rng.choice([61, 130]))])
+            final.append([0, 0xC0 + i, zero if zero is not None else rng.choice([a1, a2]), 6, a0, dict(seed=rng.getrandbits(30), len=rng.choice([61, 130]))])
         for i in range(4):
             final.append([0, 0xF0 + i, 0x11, 6, a0, dict(seed=rng.getrandbits(30), len=rng.choice([61, 130]))])
     else:
